@@ -35,7 +35,14 @@ def rand_device(rnd, tag, big):
         # outputs and inputs interleave freely over the sync manager indices
         rnd.shuffle(chosen)
         out_sms, in_sms = sorted(chosen[:n_out]), sorted(chosen[n_out:])
-        if multi:
+        if multi and rnd.random() < 0.35:
+            # fewer FMMUs than sync managers: the ones that must share lie back to back (same direction on adjacent
+            # indices, packed areas)
+            out_sms = list(range(2, 2 + n_out))
+            in_sms = list(range(2 + n_out, 2 + n_out + n_in))
+            d["fmmus"] = "%d,%d" % (rnd.randint(1, n_out), rnd.randint(1, n_in))
+            d["sm_spacing"] = "packed"
+        elif multi:
             d["fmmus"] = "per_sm"
             d["sm_spacing"] = rnd.choice(["spaced", "packed"])
         else:
